@@ -232,8 +232,13 @@ pub fn class_stmt(g: &mut Gen, out: &mut Vec<Stmt>) {
     g.declare_pub(&name, Kind::Class(ci), false);
     // rebinding the superclass *name* afterwards must not change what `super` means
     if let Some((sname, _)) = &superclass {
-        if g.at_global_pub() && g.rd.chance(1, 8) {
+        // (at top level the name is a global, inside a function or block a local or a captured
+        // variable of the enclosing function)
+        if g.rd.chance(1, 8) {
             g.label_pub("superclass_name_rebound");
+            if !g.at_global_pub() {
+                g.label_pub("local_superclass_name_rebound");
+            }
             out.push(Stmt::expr(Expr::assign_var(sname, Expr::var("Object"))));
         }
     }
@@ -281,7 +286,37 @@ pub fn inst_use(g: &mut Gen, out: &mut Vec<Stmt>) {
     let n = 1 + g.rd.below(3);
     for _ in 0..n {
         let gd = g.guard_begin_pub();
-        let s = match g.rd.below(9) {
+        let s = match g.rd.below(11) {
+            9 | 10 => {
+                // a member read off the class object and kept as a value — a static method (which
+                // must still know the class it was taken from: `Self`), the constructor, or an
+                // instance method or unknown member (errors) — called later, directly or out of a
+                // container
+                let ctor = g.rd.chance(1, 3);
+                let (m, a) = if ctor || methods.is_empty() {
+                    match g.class_info(ci).1 {
+                        Some((name, arity)) => (name, arity),
+                        None => ("new".to_string(), 0),
+                    }
+                } else {
+                    let (m, a, _) = methods[g.rd.below(methods.len())].clone();
+                    (m, a)
+                };
+                let cm = g.fresh_pub("cm");
+                let via_vec = g.rd.chance(1, 3);
+                let taken = Expr::get(Expr::var(&cname), &m);
+                out.push(Stmt::var(&cm, Some(if via_vec { Expr::VecLit(vec![taken]) } else { taken })));
+                g.declare_pub(&cm, Kind::Any, false);
+                let args: Vec<Expr> = (0..a).map(|q| Expr::Num(q as f64 + 5.0)).collect();
+                g.label_pub("class_member_as_value");
+                let callee = if via_vec { Expr::index(Expr::var(&cm), Expr::Num(0.0)) } else { Expr::var(&cm) };
+                let call = Expr::call(callee, args);
+                if ctor {
+                    Stmt::print(Expr::callv("type", vec![call]))
+                } else {
+                    Stmt::print(call)
+                }
+            }
             0..=2 if !methods.is_empty() => {
                 let (m, a, _) = methods[g.rd.below(methods.len())].clone();
                 let a = if g.rd.chance(1, 10) { a + 1 } else { a };
